@@ -138,9 +138,9 @@ Section P.
     - assert (H' : s_timefmt st = TFLayout -> Forall (fun t => plain_text (t_fmt t)) l).
       { intros E. eapply Forall_impl; [|exact H]. intros t Ht. apply Ht; auto. }
       destruct (times_good dst l _ H') as [E G]. destruct (times_good [] l _ H') as [E0 _]. rewrite E, E0. cbn [app]. auto.
-    - rewrite !AppendDuration_shape. cbn [app]. split; auto. apply duration_good_txt. exact H.
+    - rewrite !AppendDuration_shape. cbn [app]. split; auto. apply duration_good_txt. exact (proj1 H).
     - assert (H' : s_dur_int st = false -> Forall (fun d => float_ok (d_quot d)) l).
-      { intros E. eapply Forall_impl; [|exact H]. intros t Ht. apply Ht; auto. }
+      { intros E. eapply Forall_impl; [|exact H]. intros t Ht. apply (proj1 Ht); auto. }
       destruct (durations_good dst l (s_dur_unit st) _ (s_prec st) H') as [E G].
       destruct (durations_good [] l (s_dur_unit st) _ (s_prec st) H') as [E0 _]. rewrite E, E0. cbn [app]. auto.
     - destruct (iface_good dst r H) as [E G]. destruct (iface_good [] r H) as [E0 _]. rewrite E, E0. cbn [app]. auto.
